@@ -1,5 +1,6 @@
 import Votca.Base.Util
 import Votca.Gen.Units
+import Votca.Gen.Formats
 /-! # C08 — executable model of the text codecs of the trajectory / table / matrix files (csg/src/libcsg/modules/io/*,
 imcio.cc, tools table.cc) at the record level: which quantity is written in which unit with how many decimals or
 significant digits, how the box is laid out, and what the reader makes of it.  `printf("%.kf")` / `setprecision(k)` are
@@ -72,13 +73,15 @@ def kcal2kj : Rat := Votca.Gen.Units.kcal2kj
 def nm2ang : Rat := Votca.Gen.Units.nm2ang
 def ang2nm : Rat := Votca.Gen.Units.ang2nm
 
+open Votca.Gen.Formats in
+/-- the format table; precisions and unit factors are the ones `tr_c08` reads from the writers and readers -/
 def fmtOf (name : String) : Option Fmt :=
-  if name == "gro" then some { pos := ⟨1, 1, .dec 3⟩, vel := some ⟨1, 1, .dec 4⟩, frc := none, box := .full, boxField := ⟨1, 1, .dec 5⟩, nameChars := 5 }
-  else if name == "dump" then some { pos := ⟨nm2ang, ang2nm, .dec 6⟩, vel := some ⟨nm2ang, ang2nm, .dec 6⟩, frc := some ⟨kj2kcal / nm2ang, kcal2kj / ang2nm, .dec 6⟩,
-                                     box := .diag, boxField := ⟨nm2ang, ang2nm, .dec 6⟩, nameChars := 0 }
-  else if name == "xyz" then some { pos := ⟨nm2ang, ang2nm, .dec 5⟩, vel := none, frc := none, box := .none, boxField := ⟨1, 1, .dec 5⟩, nameChars := 3 }
-  else if name == "dlph" then some { pos := ⟨nm2ang, ang2nm, .sig 12⟩, vel := some ⟨nm2ang, ang2nm, .sig 12⟩, frc := some ⟨nm2ang, ang2nm, .sig 12⟩,
-                                     box := .full, boxField := ⟨nm2ang, ang2nm, .sig 12⟩, nameChars := 0 }
+  if name == "gro" then some { pos := ⟨1, 1, .dec groPosDec⟩, vel := some ⟨1, 1, .dec groVelDec⟩, frc := none, box := .full, boxField := ⟨1, 1, .dec groBoxDec⟩, nameChars := 5 }
+  else if name == "dump" then some { pos := ⟨dumpPosW, dumpPosR, .dec dumpDec⟩, vel := some ⟨dumpVelW, dumpVelR, .dec dumpDec⟩, frc := some ⟨dumpFrcW, dumpFrcR, .dec dumpDec⟩,
+                                     box := .diag, boxField := ⟨dumpBoxW, dumpBoxR, .dec dumpDec⟩, nameChars := 0 }
+  else if name == "xyz" then some { pos := ⟨xyzW, xyzR, .dec xyzDec⟩, vel := none, frc := none, box := .none, boxField := ⟨1, 1, .dec xyzDec⟩, nameChars := 3 }
+  else if name == "dlph" then some { pos := ⟨dlpolyW, dlpolyR, .sig dlpolySig⟩, vel := some ⟨dlpolyW, dlpolyR, .sig dlpolySig⟩, frc := some ⟨dlpolyW, dlpolyR, .sig dlpolySig⟩,
+                                     box := .full, boxField := ⟨dlpolyW, dlpolyR, .sig dlpolySig⟩, nameChars := 0 }
   else if name == "pdb" then some { pos := ⟨nm2ang, ang2nm, .dec 3⟩, vel := none, frc := none, box := .none, boxField := ⟨1, 1, .dec 3⟩, nameChars := 4 }
   else none
 
@@ -94,9 +97,9 @@ def checkCount (ntop nfile : Nat) : Bool := ntop == nfile
 /-! ## matrix, index and table text -/
 
 /-- `imcio_write_matrix` writes row by row, `imcio_read_matrix` reads row by row -/
-def matrixRoundtrip (m : List (List Rat)) : List (List Rat) := m.map fun row => row.map (roundSig 8)
+def matrixRoundtrip (m : List (List Rat)) : List (List Rat) := m.map fun row => row.map (roundSig Votca.Gen.Formats.matrixSig)
 
 def tableRoundtrip (rows : List (Rat × Rat × Char × Rat)) : List (Rat × Rat × Char × Rat) :=
-  rows.map fun (x, y, f, e) => (roundSig 10 x, roundSig 10 y, f, roundSig 10 e)
+  rows.map fun (x, y, f, e) => (roundSig Votca.Gen.Formats.tableSig x, roundSig Votca.Gen.Formats.tableSig y, f, roundSig Votca.Gen.Formats.tableSig e)
 
 end Votca.C08
